@@ -648,3 +648,444 @@ Proof.
 Qed.
 
 End NewProofs.
+
+(* ====================================================================================
+   Scan
+   ==================================================================================== *)
+Section ScanProofs.
+Variable lower : Z -> Z.
+Variable t : bmtab.
+Variable text : list Z.
+Local Notation pat := (bm_pattern t).
+Local Notation M := (zlen (bm_pattern t)).
+Local Notation N := (zlen text).
+
+(* the text as Scan compares it *)
+Definition bmp_tx (i : Z) : Z := bm_fold lower (bm_ci t) (bm_gz text i).
+
+(* an occurrence of the pattern AT position k: it starts at k (left-to-right) / ends at k (right-to-left) *)
+Definition bmp_occ_at (k : Z) : Prop :=
+  forall j, 0 <= j < M ->
+    0 <= (if bm_rtl t then k - M + j else k + j) < N /\
+    bmp_tx (if bm_rtl t then k - M + j else k + j) = bmp_p pat j.
+
+(* the same in Scan's coordinates: [a] is the text index under the pattern's tail (compared first) *)
+Definition bmp_occ (rtl : bool) (a : Z) : Prop :=
+  forall j, 0 <= j < M ->
+    0 <= a + j - bm_last rtl M < N /\ bmp_tx (a + j - bm_last rtl M) = bmp_p pat j.
+
+Definition bmp_res (rtl : bool) (a : Z) : Z := if rtl then a + M else a - (M - 1).
+
+Lemma bmp_occ_res : forall a, bmp_occ (bm_rtl t) a <-> bmp_occ_at (bmp_res (bm_rtl t) a).
+Proof.
+  intros a. unfold bmp_occ, bmp_occ_at, bmp_res, bm_last. destruct (bm_rtl t).
+  - split; intros H j Hj; specialize (H j Hj); replace (a + M - M + j) with (a + j - 0) in * by lia; exact H.
+  - split; intros H j Hj; specialize (H j Hj); replace (a - (M - 1) + j) with (a + j - (M - 1)) in * by lia; exact H.
+Qed.
+
+Ltac bmp_dir3 := unfold bm_last, bm_bf, bm_bump, bmp_beyond in *.
+
+(* the good-suffix-like shift never jumps over an occurrence *)
+Lemma bmp_shift_good : forall rtl test i,
+  bmp_pos_ok pat rtl (bm_positive t) -> 0 <= i < M ->
+  (forall k, bmp_beyond pat rtl i k -> bmp_tx (test + k - bm_last rtl M) = bmp_p pat k) ->
+  bmp_tx (test + i - bm_last rtl M) <> bmp_p pat i ->
+  forall d, 0 <= d < bm_gz (bm_positive t) i * bm_bump rtl -> ~ bmp_occ rtl (test + d * bm_bump rtl).
+Proof.
+  intros rtl test i [_ Hpos] Hi Htail Hmis d Hd Hocc.
+  destruct (Hpos i Hi) as [Hrange Hnv].
+  destruct (Z.eq_dec d 0) as [->|Hd0].
+  - destruct (Hocc i Hi) as [_ He]. apply Hmis. rewrite <- He. f_equal. lia.
+  - apply (Hnv d ltac:(lia)). unfold bmp_viable.
+    assert (Hj : 0 <= i - d * bm_bump rtl < M) by (bmp_dir3; destruct rtl; lia).
+    split; [exact Hj|]. split.
+    + destruct (Hocc _ Hj) as [_ He]. intros Heq. apply Hmis. rewrite <- Heq, <- He. f_equal. lia.
+    + intros k Hk. assert (Hkj : 0 <= k - d * bm_bump rtl < M) by (bmp_dir3; destruct rtl; lia).
+      destruct (Hocc _ Hkj) as [_ He]. rewrite <- He, <- (Htail k Hk). f_equal. lia.
+Qed.
+
+(* nor does the bad-character shift *)
+Lemma bmp_shift_bad : forall rtl test i a c,
+  bmp_neg_inv pat rtl M a c -> 0 <= i < M ->
+  c = bmp_tx (test + i - bm_last rtl M) -> c <> bmp_p pat i ->
+  forall d, 0 <= d < (i - bm_last rtl M) * bm_bump rtl + a * bm_bump rtl -> ~ bmp_occ rtl (test + d * bm_bump rtl).
+Proof.
+  intros rtl test i a c (I1 & I2 & I3) Hi Hc Hmis d Hd Hocc.
+  destruct (Z.eq_dec d 0) as [->|Hd0].
+  - destruct (Hocc i Hi) as [_ He]. apply Hmis. rewrite Hc, <- He. f_equal. lia.
+  - assert (Hj : 0 <= i - d * bm_bump rtl < M) by (bmp_dir3; destruct rtl; lia).
+    destruct (Hocc _ Hj) as [_ He].
+    apply (I3 ((bm_last rtl M - i) * bm_bump rtl + d)); [bmp_dir3; destruct rtl; lia | bmp_dir3; destruct rtl; lia | bmp_dir3; destruct rtl; lia |].
+    replace (bm_last rtl M - ((bm_last rtl M - i) * bm_bump rtl + d) * bm_bump rtl) with (i - d * bm_bump rtl)
+      by (bmp_dir3; destruct rtl; lia).
+    rewrite Hc, <- He. f_equal. lia.
+Qed.
+
+Lemma bmp_lookup_inv : forall c lk, bmp_neg_ok t -> bm_neg_lookup t c = Ok lk ->
+  0 <= c /\ bmp_neg_inv pat (bm_rtl t) M (match lk with Some v => v | None => bm_defadv t end) c.
+Proof.
+  intros c lk Hneg Hl.
+  assert (Hc : 0 <= c).
+  { unfold bm_neg_lookup in Hl. destruct (c <? 128) eqn:E; [|lia].
+    destruct (bm_at (bm_negascii t) c) as [v| | |] eqn:Ea; try discriminate. apply bmp_at_Ok in Ea. lia. }
+  split; [exact Hc|]. destruct (Hneg c Hc) as (r & Hr & Hinv). rewrite Hl in Hr. inversion Hr; subst r. exact Hinv.
+Qed.
+
+Lemma bmp_adv_max : forall (rtl : bool) (adv t2 : Z),
+  (if rtl then (if t2 <? adv then t2 else adv) else (if adv <? t2 then t2 else adv)) * bm_bump rtl
+  = Z.max (adv * bm_bump rtl) (t2 * bm_bump rtl).
+Proof. intros [|] adv t2; unfold bm_bump; [destruct (t2 <? adv) eqn:E | destruct (adv <? t2) eqn:E]; lia. Qed.
+
+Lemma bmp_scan_match_spec : forall rtl, bm_rtl t = rtl -> bmp_tab_ok t ->
+  forall fuel test test2 mtch s,
+  0 <= mtch < M -> test2 = test + mtch - bm_last rtl M ->
+  (forall k, k = mtch \/ bmp_beyond pat rtl mtch k ->
+     0 <= test + k - bm_last rtl M < N /\ bmp_tx (test + k - bm_last rtl M) = bmp_p pat k) ->
+  bm_scan_match lower t text fuel test test2 mtch = Ok s ->
+  match s with
+  | BmRet r => bmp_occ rtl test /\ r = bmp_res rtl test
+  | BmAdv test' => 1 <= (test' - test) * bm_bump rtl /\
+                   forall d, 0 <= d < (test' - test) * bm_bump rtl -> ~ bmp_occ rtl (test + d * bm_bump rtl)
+  end.
+Proof.
+  intros rtl Hr (HM & Hpos & Hneg) fuel. rewrite Hr in Hpos.
+  induction fuel as [|f IH]; intros test test2 mtch s Hm Ht2 Hmat Hs; [discriminate|].
+  cbn [bm_scan_match] in Hs. unfold bm_endmatch in Hs. rewrite Hr in Hs.
+  destruct (mtch =? (if rtl then M - 1 else 0)) eqn:Eend.
+  - inversion Hs; subst s. split.
+    + intros j Hj. apply Hmat. bmp_dir3. destruct rtl; lia.
+    + unfold bmp_res. bmp_dir3. destruct rtl; lia.
+  - set (mtch' := mtch - bm_bump rtl) in *. set (test2' := test2 - bm_bump rtl) in *.
+    assert (Hm' : 0 <= mtch' < M) by (unfold mtch'; bmp_dir3; destruct rtl; lia).
+    assert (Ht2' : test2' = test + mtch' - bm_last rtl M) by (unfold test2', mtch'; lia).
+    destruct (bm_at text test2') as [c| | |] eqn:Ec; try discriminate. cbn [bind] in Hs.
+    apply bmp_at_Ok in Ec. destruct Ec as [Hrange Hcv].
+    rewrite (bmp_at_in pat mtch' Hm') in Hs. cbn [bind] in Hs.
+    assert (Hchv : bm_fold lower (bm_ci t) c = bmp_tx test2') by (unfold bmp_tx; rewrite Hcv; reflexivity).
+    rewrite Hchv in Hs. fold (bmp_p pat mtch') in Hs.
+    destruct (bmp_tx test2' =? bmp_p pat mtch') eqn:Eeq; cbn [negb] in Hs.
+    + (* still matching *)
+      apply (IH test test2' mtch' s Hm' Ht2'); [|exact Hs].
+      intros k Hk. assert (Hc : k = mtch' \/ k = mtch \/ bmp_beyond pat rtl mtch k) by (unfold mtch' in *; bmp_dir3; destruct rtl; lia).
+      destruct Hc as [->|Hc]; [|apply Hmat; exact Hc].
+      rewrite <- Ht2'. split; [exact Hrange | lia].
+    + (* reject *)
+      destruct Hpos as [Hpl Hpi]. pose proof (conj Hpl Hpi) as Hpos.
+      rewrite (bmp_at_in (bm_positive t) mtch') in Hs by lia. cbn [bind] in Hs.
+      destruct (bm_neg_lookup t (bmp_tx test2')) as [lk| | |] eqn:El; try discriminate. cbn [bind] in Hs.
+      destruct (bmp_lookup_inv _ _ Hneg El) as [Hc0 Hinv]. rewrite Hr in Hinv.
+      assert (Htail : forall k, bmp_beyond pat rtl mtch' k -> bmp_tx (test + k - bm_last rtl M) = bmp_p pat k).
+      { intros k Hk. apply Hmat. unfold mtch' in *. bmp_dir3. destruct rtl; lia. }
+      assert (Hmis : bmp_tx (test + mtch' - bm_last rtl M) <> bmp_p pat mtch') by (rewrite <- Ht2'; lia).
+      pose proof (bmp_shift_good rtl test mtch' Hpos Hm' Htail Hmis) as Hgood.
+      destruct (Hpi mtch' Hm') as [Hp1 _].
+      destruct lk as [v|].
+      * inversion Hs; subst s. clear Hs.
+        replace (test + _ - test) with
+          (if rtl then (if mtch' - bm_startmatch t + v <? bm_gz (bm_positive t) mtch' then mtch' - bm_startmatch t + v else bm_gz (bm_positive t) mtch')
+           else (if bm_gz (bm_positive t) mtch' <? mtch' - bm_startmatch t + v then mtch' - bm_startmatch t + v else bm_gz (bm_positive t) mtch')) by lia.
+        rewrite bmp_adv_max. split; [lia|]. intros d Hd.
+        destruct (Z_lt_ge_dec d (bm_gz (bm_positive t) mtch' * bm_bump rtl)) as [Hlt|Hge]; [apply Hgood; lia|].
+        apply (bmp_shift_bad rtl test mtch' v (bmp_tx test2') Hinv Hm'); [rewrite Ht2'; reflexivity | lia|].
+        replace (bm_startmatch t) with (bm_last rtl M) in Hd by (unfold bm_startmatch, bm_last; rewrite Hr; reflexivity).
+        lia.
+      * inversion Hs; subst s. clear Hs. replace (test + bm_gz (bm_positive t) mtch' - test) with (bm_gz (bm_positive t) mtch') by lia.
+        split; [lia|]. exact Hgood.
+Qed.
+
+(* ---- the outer loop: partial correctness ---- *)
+Lemma bmp_scan_loop_spec : forall rtl, bm_rtl t = rtl -> bmp_tab_ok t ->
+  forall beglimit endlimit fuel test r,
+  (if rtl then test < endlimit else beglimit <= test) ->
+  bm_scan_loop lower t text (bmp_p pat (bm_last rtl M)) beglimit endlimit fuel test = Ok r ->
+  (r = -1 /\ forall d, 0 <= d -> beglimit <= test + d * bm_bump rtl < endlimit -> ~ bmp_occ rtl (test + d * bm_bump rtl)) \/
+  (exists d, 0 <= d /\ beglimit <= test + d * bm_bump rtl < endlimit /\ bmp_occ rtl (test + d * bm_bump rtl) /\
+             r = bmp_res rtl (test + d * bm_bump rtl) /\
+             forall d', 0 <= d' < d -> ~ bmp_occ rtl (test + d' * bm_bump rtl)).
+Proof.
+  intros rtl Hr Hok beglimit endlimit fuel. pose proof Hok as (HM & Hpos & Hneg).
+  induction fuel as [|f IH]; intros test r Hwin Hs; [discriminate|].
+  cbn [bm_scan_loop] in Hs.
+  destruct ((endlimit <=? test) || (test <? beglimit)) eqn:Eout.
+  - inversion Hs; subst r. left. split; [reflexivity|]. intros d Hd Hin. exfalso. bmp_dir3. destruct rtl; lia.
+  - destruct (bm_at text test) as [c| | |] eqn:Ec; try discriminate. cbn [bind] in Hs.
+    apply bmp_at_Ok in Ec. destruct Ec as [Hrange Hcv].
+    assert (Hchv : bm_fold lower (bm_ci t) c = bmp_tx test) by (unfold bmp_tx; rewrite Hcv; reflexivity).
+    rewrite Hchv in Hs.
+    (* one turn either answers, or moves on by D >= 1 without passing an occurrence *)
+    assert (Hturn : forall test', 1 <= (test' - test) * bm_bump rtl ->
+              (forall d, 0 <= d < (test' - test) * bm_bump rtl -> ~ bmp_occ rtl (test + d * bm_bump rtl)) ->
+              bm_scan_loop lower t text (bmp_p pat (bm_last rtl M)) beglimit endlimit f test' = Ok r ->
+              (r = -1 /\ forall d, 0 <= d -> beglimit <= test + d * bm_bump rtl < endlimit -> ~ bmp_occ rtl (test + d * bm_bump rtl)) \/
+              (exists d, 0 <= d /\ beglimit <= test + d * bm_bump rtl < endlimit /\ bmp_occ rtl (test + d * bm_bump rtl) /\
+                         r = bmp_res rtl (test + d * bm_bump rtl) /\
+                         forall d', 0 <= d' < d -> ~ bmp_occ rtl (test + d' * bm_bump rtl))).
+    { intros test' HD Hno Hs'. set (D := (test' - test) * bm_bump rtl) in *.
+      assert (Ht' : test' = test + D * bm_bump rtl) by (unfold D; bmp_dir3; destruct rtl; lia).
+      assert (Hwin' : if rtl then test' < endlimit else beglimit <= test') by (bmp_dir3; destruct rtl; lia).
+      destruct (IH test' r Hwin' Hs') as [[-> Hall]|(d & Hd & Hin & Hocc & Hres & Hbefore)].
+      - left. split; [reflexivity|]. intros d Hd Hin.
+        destruct (Z_lt_ge_dec d D) as [Hlt|Hge]; [apply Hno; lia|].
+        replace (test + d * bm_bump rtl) with (test' + (d - D) * bm_bump rtl) in * by lia. apply Hall; [lia | exact Hin].
+      - right. exists (D + d).
+        replace (test + (D + d) * bm_bump rtl) with (test' + d * bm_bump rtl) by lia.
+        split; [lia|]. split; [exact Hin|]. split; [exact Hocc|]. split; [exact Hres|].
+        intros d' Hd'. destruct (Z_lt_ge_dec d' D) as [Hlt|Hge]; [apply Hno; lia|].
+        replace (test + d' * bm_bump rtl) with (test' + (d' - D) * bm_bump rtl) by lia. apply Hbefore. lia. }
+    destruct (bmp_tx test =? bmp_p pat (bm_last rtl M)) eqn:Eeq; cbn [negb] in Hs.
+    + (* the tail character matches: compare the rest *)
+      destruct (bm_scan_match lower t text (S (length pat)) test test (bm_startmatch t)) as [s| | |] eqn:Em; try discriminate.
+      cbn [bind] in Hs.
+      assert (Hsm : bm_startmatch t = bm_last rtl M) by (unfold bm_startmatch, bm_last; rewrite Hr; reflexivity).
+      rewrite Hsm in Em.
+      pose proof (bmp_scan_match_spec rtl Hr Hok (S (length pat)) test test (bm_last rtl M) s) as Hspec.
+      specialize (Hspec ltac:(bmp_dir3; destruct rtl; lia) ltac:(lia)).
+      assert (Hmat : forall k, k = bm_last rtl M \/ bmp_beyond pat rtl (bm_last rtl M) k ->
+                0 <= test + k - bm_last rtl M < N /\ bmp_tx (test + k - bm_last rtl M) = bmp_p pat k).
+      { intros k [->|Hk]; [|exfalso; bmp_dir3; destruct rtl; lia].
+        replace (test + bm_last rtl M - bm_last rtl M) with test by lia. split; [exact Hrange | lia]. }
+      specialize (Hspec Hmat Em). destruct s as [r0|test'].
+      * inversion Hs; subst r0. destruct Hspec as [Hocc Hres]. right. exists 0.
+        replace (test + 0 * bm_bump rtl) with test by lia. split; [lia|]. split; [lia|]. split; [exact Hocc|].
+        split; [exact Hres|]. intros d' Hd'. lia.
+      * destruct Hspec as [HD Hno]. exact (Hturn test' HD Hno Hs).
+    + (* reject at the tail: bad-character advance *)
+      destruct (bm_neg_lookup t (bmp_tx test)) as [lk| | |] eqn:El; try discriminate. cbn [bind] in Hs.
+      destruct (bmp_lookup_inv _ _ Hneg El) as [Hc0 Hinv]. rewrite Hr in Hinv.
+      set (a := match lk with Some v => v | None => bm_defadv t end) in *.
+      assert (Hlast : 0 <= bm_last rtl M < M) by (bmp_dir3; destruct rtl; lia).
+      pose proof (bmp_shift_bad rtl test (bm_last rtl M) a (bmp_tx test) Hinv Hlast) as Hbad.
+      replace (test + bm_last rtl M - bm_last rtl M) with test in Hbad by lia.
+      specialize (Hbad eq_refl ltac:(lia)).
+      replace ((bm_last rtl M - bm_last rtl M) * bm_bump rtl + a * bm_bump rtl) with (a * bm_bump rtl) in Hbad by lia.
+      apply (Hturn (test + a)); [| replace (test + a - test) with a by lia; exact Hbad | exact Hs].
+      replace (test + a - test) with a by lia.
+      destruct Hinv as (I1 & I2 & I3).
+      destruct (Z.eq_dec (a * bm_bump rtl) 0) as [Hz|Hnz]; [|lia].
+      exfalso. assert (a = 0) by (bmp_dir3; destruct rtl; lia).
+      specialize (I2 ltac:(lia)). rewrite H in I2. replace (bm_last rtl M - 0) with (bm_last rtl M) in I2 by lia. lia.
+Qed.
+
+Definition bmp_fits (beglimit endlimit k : Z) : Prop :=
+  if bm_rtl t then beglimit <= k - M else k + M <= endlimit.
+
+Lemma bmp_startmatch_at : forall rtl, bm_rtl t = rtl -> 1 <= M ->
+  bm_at pat (bm_startmatch t) = Ok (bmp_p pat (bm_last rtl M)).
+Proof.
+  intros rtl Hr HM. assert (Hsm : bm_startmatch t = bm_last rtl M) by (unfold bm_startmatch, bm_last; rewrite Hr; reflexivity).
+  rewrite Hsm. apply bmp_at_in. bmp_dir3. destruct rtl; lia.
+Qed.
+
+(* Scan answers the FIRST occurrence at-or-beyond index (in scan direction) inside the window, -1 if none *)
+Theorem bmp_scan_sound : forall fuel index beglimit endlimit r, bmp_tab_ok t -> beglimit <= index <= endlimit ->
+  bm_scan lower t text fuel index beglimit endlimit = Ok r ->
+  (r = -1 /\ forall k, sc_ord (bm_rtl t) index k -> bmp_fits beglimit endlimit k -> ~ bmp_occ_at k) \/
+  (sc_ord (bm_rtl t) index r /\ bmp_fits beglimit endlimit r /\ bmp_occ_at r /\
+   forall k, sc_ord (bm_rtl t) index k -> sc_before (bm_rtl t) k r -> ~ bmp_occ_at k).
+Proof.
+  intros fuel index beglimit endlimit r Hok Hidx Hs. pose proof Hok as (HM & _ & _).
+  remember (bm_rtl t) as rtl eqn:Hr. symmetry in Hr.
+  unfold bm_scan in Hs. rewrite (bmp_startmatch_at rtl Hr HM) in Hs. cbn [bind] in Hs.
+  unfold bm_defadv in Hs. rewrite Hr in Hs.
+  set (test0 := if rtl then index + - M else index + M - 1).
+  replace (if rtl then index + (if rtl then - M else M) else index + (if rtl then - M else M) - 1) with test0 in Hs
+    by (unfold test0; destruct rtl; lia).
+  assert (Hwin : if rtl then test0 < endlimit else beglimit <= test0) by (unfold test0; destruct rtl; lia).
+  assert (Hocc : forall a, bmp_occ rtl a <-> bmp_occ_at (bmp_res rtl a)) by (intros a; rewrite <- Hr; apply bmp_occ_res).
+  destruct (bmp_scan_loop_spec rtl Hr Hok beglimit endlimit fuel test0 r Hwin Hs) as [[-> Hall]|(d & Hd & Hin & Ho & Hres & Hbefore)].
+  - left. split; [reflexivity|]. intros k Hk Hfit Hoc.
+    set (d := if rtl then index - k else k - index).
+    apply (Hall d).
+    + unfold d, sc_ord in *. destruct rtl; lia.
+    + unfold d, test0, sc_ord, bmp_fits, bm_bump in *. rewrite Hr in Hfit. destruct rtl; lia.
+    + apply Hocc. replace (bmp_res rtl (test0 + d * bm_bump rtl)) with k; [exact Hoc|].
+      unfold bmp_res, d, test0, bm_bump. destruct rtl; lia.
+  - right. assert (Hrk : r = if rtl then index - d else index + d).
+    { rewrite Hres. unfold bmp_res, test0, bm_bump. destruct rtl; lia. }
+    split; [unfold sc_ord; destruct rtl; lia|]. split.
+    + unfold bmp_fits. rewrite Hr. unfold test0, bm_bump in Hin. destruct rtl; lia.
+    + split; [rewrite Hres; apply Hocc; exact Ho|].
+      intros k Hk Hkr Hoc. set (d' := if rtl then index - k else k - index).
+      apply (Hbefore d').
+      * unfold d', sc_ord, sc_before in *. destruct rtl; lia.
+      * apply Hocc. replace (bmp_res rtl (test0 + d' * bm_bump rtl)) with k; [exact Hoc|].
+        unfold bmp_res, d', test0, bm_bump. destruct rtl; lia.
+Qed.
+
+(* ---- no fault, no fuel exhaustion on non-negative runes ---- *)
+Lemma bmp_lookup_total : forall c, bmp_neg_ok t -> 0 <= c -> exists lk, bm_neg_lookup t c = Ok lk.
+Proof. intros c Hneg Hc. destruct (Hneg c Hc) as (r & Hr & _). eauto. Qed.
+
+Lemma bmp_scan_match_total : forall rtl, bm_rtl t = rtl -> bmp_tab_ok t ->
+  (forall i, 0 <= i < N -> 0 <= bmp_tx i) ->
+  forall fuel test test2 mtch,
+  0 <= mtch < M -> test2 = test + mtch - bm_last rtl M ->
+  (forall k, 0 <= k < M -> 0 <= test + k - bm_last rtl M < N) ->
+  (Z.to_nat ((mtch - (if rtl then M - 1 else 0)) * bm_bump rtl) < fuel)%nat ->
+  exists s, bm_scan_match lower t text fuel test test2 mtch = Ok s.
+Proof.
+  intros rtl Hr (HM & Hpos & Hneg) Hnn fuel. rewrite Hr in Hpos.
+  induction fuel as [|f IH]; intros test test2 mtch Hm Ht2 Hrg Hf; [lia|].
+  cbn [bm_scan_match]. unfold bm_endmatch. rewrite Hr.
+  destruct (mtch =? (if rtl then M - 1 else 0)) eqn:Eend; [eauto|].
+  set (mtch' := mtch - bm_bump rtl). set (test2' := test2 - bm_bump rtl).
+  assert (Hm' : 0 <= mtch' < M) by (unfold mtch'; bmp_dir3; destruct rtl; lia).
+  assert (Ht2' : test2' = test + mtch' - bm_last rtl M) by (unfold test2', mtch'; lia).
+  assert (Hr2 : 0 <= test2' < N) by (rewrite Ht2'; apply Hrg; exact Hm').
+  rewrite (bmp_at_in text test2' Hr2). cbn [bind]. rewrite (bmp_at_in pat mtch' Hm'). cbn [bind].
+  fold (bmp_tx test2').
+  destruct (negb (bmp_tx test2' =? bm_gz pat mtch')) eqn:Emis.
+  - destruct Hpos as [Hpl _]. rewrite (bmp_at_in (bm_positive t) mtch') by lia. cbn [bind].
+    destruct (bmp_lookup_total (bmp_tx test2') Hneg (Hnn _ Hr2)) as [lk ->]. cbn [bind]. destruct lk; eauto.
+  - apply IH; [exact Hm' | exact Ht2' | exact Hrg |]. unfold mtch'. bmp_dir3. destruct rtl; lia.
+Qed.
+
+Lemma bmp_scan_loop_total : forall rtl, bm_rtl t = rtl -> bmp_tab_ok t ->
+  (forall i, 0 <= i < N -> 0 <= bmp_tx i) ->
+  forall beglimit endlimit, 0 <= beglimit -> endlimit <= N ->
+  forall fuel test,
+  (if rtl then test < endlimit /\ test + M <= N else beglimit <= test /\ M - 1 <= test) ->
+  (Z.to_nat (if rtl then test - beglimit + 1 else endlimit - test) < fuel)%nat ->
+  exists r, bm_scan_loop lower t text (bmp_p pat (bm_last rtl M)) beglimit endlimit fuel test = Ok r.
+Proof.
+  intros rtl Hr Hok Hnn beglimit endlimit Hb He fuel. pose proof Hok as (HM & Hpos & Hneg).
+  induction fuel as [|f IH]; intros test Hinv Hf; [lia|].
+  cbn [bm_scan_loop].
+  destruct ((endlimit <=? test) || (test <? beglimit)) eqn:Eout; [eauto|].
+  assert (Hrange : 0 <= test < N) by lia.
+  rewrite (bmp_at_in text test Hrange). cbn [bind]. fold (bmp_tx test).
+  assert (Hnext : forall test', 1 <= (test' - test) * bm_bump rtl ->
+            exists r, bm_scan_loop lower t text (bmp_p pat (bm_last rtl M)) beglimit endlimit f test' = Ok r).
+  { intros test' HD. apply IH; bmp_dir3; destruct rtl; lia. }
+  destruct (bmp_tx test =? bmp_p pat (bm_last rtl M)) eqn:Eeq; cbn [negb].
+  - assert (Hsm : bm_startmatch t = bm_last rtl M) by (unfold bm_startmatch, bm_last; rewrite Hr; reflexivity).
+    rewrite Hsm.
+    assert (Hlast : 0 <= bm_last rtl M < M) by (bmp_dir3; destruct rtl; lia).
+    assert (Hrg : forall k, 0 <= k < M -> 0 <= test + k - bm_last rtl M < N) by (intros k Hk; bmp_dir3; destruct rtl; lia).
+    destruct (bmp_scan_match_total rtl Hr Hok Hnn (S (length pat)) test test (bm_last rtl M) Hlast ltac:(lia) Hrg) as [s Hs].
+    { unfold zlen in *. bmp_dir3. destruct rtl; lia. }
+    rewrite Hs. cbn [bind]. destruct s as [r0|test']; [eauto|].
+    assert (Hmat : forall k, k = bm_last rtl M \/ bmp_beyond pat rtl (bm_last rtl M) k ->
+              0 <= test + k - bm_last rtl M < N /\ bmp_tx (test + k - bm_last rtl M) = bmp_p pat k).
+    { intros k [->|Hk]; [|exfalso; bmp_dir3; destruct rtl; lia].
+      replace (test + bm_last rtl M - bm_last rtl M) with test by lia. split; [exact Hrange | lia]. }
+    destruct (bmp_scan_match_spec rtl Hr Hok _ test test (bm_last rtl M) _ Hlast ltac:(lia) Hmat Hs) as [HD _].
+    exact (Hnext test' HD).
+  - destruct (bmp_lookup_total (bmp_tx test) Hneg (Hnn _ Hrange)) as [lk Hl]. rewrite Hl. cbn [bind].
+    destruct (bmp_lookup_inv _ _ Hneg Hl) as [_ (I1 & I2 & I3)]. rewrite Hr in I1, I2, I3.
+    set (a := match lk with Some v => v | None => bm_defadv t end) in *.
+    apply Hnext. replace (test + a - test) with a by lia.
+    destruct (Z.eq_dec (a * bm_bump rtl) 0) as [Hz|Hnz]; [|lia].
+    exfalso. assert (a = 0) by (bmp_dir3; destruct rtl; lia).
+    specialize (I2 ltac:(lia)). rewrite H in I2. replace (bm_last rtl M - 0) with (bm_last rtl M) in I2 by lia. lia.
+Qed.
+
+Theorem bmp_scan_total : forall index beglimit endlimit, bmp_tab_ok t ->
+  (forall i, 0 <= i < N -> 0 <= bmp_tx i) ->
+  0 <= beglimit -> endlimit <= N -> beglimit <= index <= endlimit ->
+  exists r, bm_scan lower t text (S (length text)) index beglimit endlimit = Ok r.
+Proof.
+  intros index beglimit endlimit Hok Hnn Hb He Hidx. pose proof Hok as (HM & _ & _).
+  remember (bm_rtl t) as rtl eqn:Hr. symmetry in Hr.
+  unfold bm_scan. rewrite (bmp_startmatch_at rtl Hr HM). cbn [bind].
+  unfold bm_defadv. rewrite Hr.
+  apply (bmp_scan_loop_total rtl Hr Hok Hnn beglimit endlimit Hb He); unfold zlen in *; destruct rtl; lia.
+Qed.
+
+(* ---- IsMatch ---- *)
+Lemma bmp_gz_cons : forall x l j, 1 <= j -> bm_gz (x :: l) j = bm_gz l (j - 1).
+Proof.
+  intros x l j Hj. unfold bm_gz. replace (Z.to_nat j) with (S (Z.to_nat (j - 1))) by lia. reflexivity.
+Qed.
+
+Lemma bmp_match_loop_spec : forall pat' i, 0 <= i -> i + zlen pat' <= N ->
+  exists b, bm_match_loop lower t text pat' i = Ok b /\
+            (b = true <-> forall j, 0 <= j < zlen pat' -> bmp_tx (i + j) = bm_gz pat' j).
+Proof.
+  induction pat' as [|pc pat' IH]; intros i Hi Hn.
+  - exists true. split; [reflexivity|]. split; [intros _ j Hj; cbn in Hj; lia | reflexivity].
+  - assert (Hl : zlen (pc :: pat') = zlen pat' + 1) by (unfold zlen; cbn [length]; lia).
+    pose proof (bmp_zlen_nonneg pat') as Hp0.
+    cbn [bm_match_loop]. rewrite (bmp_at_in text i) by lia. cbn [bind]. fold (bmp_tx i).
+    destruct (bmp_tx i =? pc) eqn:E.
+    + destruct (IH (i + 1) ltac:(lia) ltac:(lia)) as (b & Hb & Hiff). exists b. split; [exact Hb|].
+      rewrite Hiff. split.
+      * intros H j Hj. destruct (Z.eq_dec j 0) as [->|Hj0].
+        -- replace (i + 0) with i by lia. unfold bm_gz. cbn. lia.
+        -- rewrite bmp_gz_cons by lia. replace (i + j) with (i + 1 + (j - 1)) by lia. apply H. lia.
+      * intros H j Hj. specialize (H (j + 1) ltac:(lia)). rewrite bmp_gz_cons in H by lia.
+        replace (j + 1 - 1) with j in H by lia. replace (i + 1 + j) with (i + (j + 1)) by lia. exact H.
+    + exists false. split; [reflexivity|]. split; [discriminate|]. intros H. specialize (H 0 ltac:(lia)).
+      replace (i + 0) with i in H by lia. unfold bm_gz in H. cbn in H. lia.
+Qed.
+
+Definition bmp_in_window (index beglimit endlimit : Z) : Prop :=
+  if bm_rtl t then index <= endlimit /\ beglimit <= index - M else beglimit <= index /\ index + M <= endlimit.
+
+Theorem bmp_is_match_spec : forall index beglimit endlimit, 0 <= beglimit -> endlimit <= N ->
+  exists b, bm_is_match lower t text index beglimit endlimit = Ok b /\
+            (b = true <-> bmp_in_window index beglimit endlimit /\ bmp_occ_at index).
+Proof.
+  intros index beglimit endlimit Hb He. unfold bm_is_match, bmp_in_window, bmp_occ_at, bm_match_pattern.
+  pose proof (bmp_zlen_nonneg pat) as HM0.
+  destruct (bm_rtl t) eqn:Hr; cbn [negb].
+  - destruct ((endlimit <? index) || (index - beglimit <? M)) eqn:Ew.
+    + exists false. split; [reflexivity|]. split; [discriminate|]. intros [Hw _]. lia.
+    + replace (zlen text - (index - M) <? M) with false by lia.
+      destruct (bmp_match_loop_spec pat (index - M) ltac:(lia) ltac:(lia)) as (b & Hbm & Hiff).
+      exists b. split; [exact Hbm|]. rewrite Hiff. split.
+      * intros H. split; [lia|]. intros j Hj. split; [lia|]. replace (index - M + j) with (index - M + j) by lia. apply H. exact Hj.
+      * intros [_ H] j Hj. apply H. exact Hj.
+  - destruct ((index <? beglimit) || (endlimit - index <? M)) eqn:Ew.
+    + exists false. split; [reflexivity|]. split; [discriminate|]. intros [Hw _]. lia.
+    + replace (zlen text - index <? M) with false by lia.
+      destruct (bmp_match_loop_spec pat index ltac:(lia) ltac:(lia)) as (b & Hbm & Hiff).
+      exists b. split; [exact Hbm|]. rewrite Hiff. split.
+      * intros H. split; [lia|]. intros j Hj. split; [lia|]. apply H. exact Hj.
+      * intros [_ H] j Hj. apply H. exact Hj.
+Qed.
+
+(* ---- what findFirstCharDefault needs of the machine (runner.go:1413, 1418) ---- *)
+Section Facts.
+Variable R : Type.
+Variable exec : Z -> option R * Z.
+
+(* the compile-time fact behind Code.BmPrefix: every successful attempt starts (left-to-right) / ends
+   (right-to-left) with the literal *)
+Definition bmp_prefix_fact : Prop :=
+  forall x, 0 <= x <= N -> fst (exec x) <> None -> bmp_occ_at x.
+
+Lemma bmp_occ_at_in_window : forall x, 1 <= M -> bmp_occ_at x -> bmp_in_window x 0 N /\ 0 <= x <= N.
+Proof.
+  intros x HM Ho. pose proof (Ho 0 ltac:(lia)) as [H0 _]. pose proof (Ho (M - 1) ltac:(lia)) as [H1 _].
+  unfold bmp_in_window. destruct (bm_rtl t); lia.
+Qed.
+
+Theorem bmp_scan_fact : bmp_tab_ok t -> (forall i, 0 <= i < N -> 0 <= bmp_tx i) -> bmp_prefix_fact ->
+  fd_bm_scan_fact R text exec (bm_rtl t) (bm_scan_fn lower t text).
+Proof.
+  intros Hok Hnn Hfact p Hp. pose proof Hok as (HM & _ & _).
+  destruct (bmp_scan_total p 0 N Hok Hnn ltac:(lia) ltac:(lia) Hp) as [r Hr].
+  unfold bm_scan_fn. rewrite Hr.
+  assert (Hfail : forall x, 0 <= x <= N -> ~ bmp_occ_at x -> sc_fails R exec x).
+  { intros x Hx Hno. unfold sc_fails. destruct (fst (exec x)) eqn:E; [|reflexivity].
+    exfalso. apply Hno. apply Hfact; [exact Hx | rewrite E; discriminate]. }
+  destruct (bmp_scan_sound _ p 0 N r Hok Hp Hr) as [[-> Hall]|(Hord & Hfit & Hocc & Hbefore)].
+  - left. split; [reflexivity|]. intros x Hox Hix. apply Hfail; [exact Hix|]. intros Ho.
+    apply (Hall x Hox); [|exact Ho]. destruct (bmp_occ_at_in_window x HM Ho) as [Hw _].
+    unfold bmp_fits, bmp_in_window in *. destruct (bm_rtl t); lia.
+  - right. destruct (bmp_occ_at_in_window r HM Hocc) as [_ Hrr]. split; [lia|]. split; [exact Hord|]. split; [exact Hrr|].
+    intros x Hox Hbx. apply Hfail; [unfold sc_ord, sc_before in *; destruct (bm_rtl t); lia|].
+    apply Hbefore; assumption.
+Qed.
+
+Theorem bmp_is_match_fact : 1 <= M -> bmp_prefix_fact ->
+  forall x, sc_in_text N x -> fst (exec x) <> None -> bm_is_match_fn lower t text x = true.
+Proof.
+  intros HM Hfact x Hx Hs. unfold bm_is_match_fn.
+  destruct (bmp_is_match_spec x 0 N ltac:(lia) ltac:(lia)) as (b & -> & Hiff).
+  apply Hiff. pose proof (Hfact x Hx Hs) as Ho. split; [apply bmp_occ_at_in_window; assumption | exact Ho].
+Qed.
+
+End Facts.
+End ScanProofs.
